@@ -26,7 +26,9 @@ def config(quick):
                 # (the last list: bare key, value pairs among New's arguments, in unsorted order)
                 opt_lists=[[], [opt("Attrs", 2, 2)], [opt("Attrs", 1, 7), opt("Attrs", 3, -2)], [opt("KV", 5, 4), opt("KV", 1, 7)],
                            # attributes given by an option AND as bare pairs in one New call (one key in both)
-                           [opt("Attrs", 2, 2), opt("Attrs", 4, 1), opt("KV", 5, 4), opt("KV", 2, 9)]],
+                           [opt("Attrs", 2, 2), opt("Attrs", 4, 1), opt("KV", 5, 4), opt("KV", 2, 9)],
+                           # lists built by NewAttrs (they carry empty slots), appended in unsorted key order
+                           [opt("Attrs1", 5, 4), opt("Attrs1", 2, 7), opt("Attrs1", 3, 2)]],
                 setter_args=sa, acts=["Set", "With", "New", "LogM", "SetAttrsR"], probe_sevs=[4], max_list=2,
                 flag_sets=[["attrsR"], ["date", "attrsR"]],
                 groups=GROUPS, ctx_vals=CTX_VALS[:2] if quick else CTX_VALS,
